@@ -209,6 +209,9 @@ def shard(ctx):
             k += 1
             if ctx.mine(k):
                 run_case(ctx, {"input": s, "frag": frag, "container": cont})
+    for q in gen.token_sequences(ctx, 3, 3, 0.4):
+        run_case(ctx, {"input": q, "frag": False, "container": None})
+        ctx.count("sequence_cases")
     n, idx = 0, ctx.i
     limit = (120000 if ctx.tier == "quick" else 3000000) // ctx.n
     t_end = time.time() + ctx.time_left()
@@ -229,6 +232,8 @@ def replay(ctx, case):
 
 
 def finalize(m, v):
+    from .. import gen as _gen
+    _gen.sequences_inconclusive(m)
     c = m["counters"]
     if c.get("events", 0) < 1000000:
         m["inconclusive"].append("handler received fewer than 10^6 events (%d)" % c.get("events", 0))
